@@ -176,6 +176,23 @@ fn verify_connection(stream: &mut TcpStream, state: Arc<AppState>) -> bool {
     true
 }
 
+/// Verification hook: the connection condition installed by `main`.
+#[cfg(humphrey_verif)]
+pub fn verif_verify_connection(stream: &mut TcpStream, state: Arc<AppState>) -> bool {
+    verify_connection(stream, state)
+}
+
+/// Verification hook: the per-route request handler installed by `main`.
+#[cfg(humphrey_verif)]
+pub fn verif_request_handler(
+    request: Request,
+    state: Arc<AppState>,
+    host: usize,
+    route: usize,
+) -> Response {
+    request_handler(request, state, host, route)
+}
+
 #[cfg(feature = "plugins")]
 fn request_handler(
     mut request: Request,
